@@ -13,14 +13,14 @@ MANIFEST = {
     "text": ("Lean theorem c16_history: for every operation sequence over any number of header maps (all constructor "
              "forms, combine, combine_lower_dict, replace, assignment, deletion) the two-dict representation keeps its "
              "invariant and is in simulation with the abstract map keyed by folded name in which the last write wins and "
-             "keeps its spelling; lookup/len/iteration/KeyError corollaries (lookup_spec, len_spec, iter_spec, raises_spec, "
-             "last_write_wins). The model is tied to utils.CaseInsensitiveDict by a per-operation differential check of the "
+             "keeps its spelling; lookup/len/iteration/KeyError/== corollaries (lookup_spec, len_spec, iter_spec, raises_spec, "
+             "eq_spec, eq_dict_spec, last_write_wins) and c16_judge_accepts_model: the run-time judge obsOk accepts the model's "
+             "observation of every register after every operation sequence. The model is tied to utils.CaseInsensitiveDict by a per-operation differential check of the "
              "full observation vector of every live map, and the Lean judge obsOk is evaluated on the implementation's "
              "observations."),
     "note": ("Trusted: Lean kernel + propext/Classical.choice/Quot.sound; CPython dict semantics modelled as an association "
              "list; ASCII keys only; object aliasing (replace(other) sharing by design) is not in the value-level model, "
-             "independence of copies is therefore carried by the correspondence runs, not by a theorem; == is judged and "
-             "compared but has no theorem yet; correspondence is sampled (exhaustive to a small depth over a reduced alphabet)."),
+             "independence of copies is therefore carried by the correspondence runs, not by a theorem; correspondence is sampled (exhaustive to a small depth over a reduced alphabet)."),
     "technique": "Lean 4 proof (simulation by induction over operation sequences) + model/implementation correspondence",
 }
 RULE = ("operation sequences over 4 registers of header maps: every constructor form (dict, kwargs, dict+kwargs, "
